@@ -63,6 +63,9 @@ impl Sm2PublicKey {
 
     /// Encrypt the given message.
     pub fn encrypt(&self, msg: &[u8], compressed: bool, model: Sm2Model) -> Sm2Result<Vec<u8>> {
+        if msg.is_empty() {
+            return Err(Sm2Error::ZeroData);
+        }
         loop {
             let klen = msg.len();
             let k = random_u256();
